@@ -176,7 +176,7 @@ def merge_pair(variant, seed):
 def asof_pair(variant, seed):
     v = (np.arange(NL) + 10)[_perm(NL, seed, 1)]
     w = (np.arange(NR) + 20)[_perm(NR, seed, 2)]
-    lt, rt = [1, 3, 3, 6, 9], [2, 3, 7, 8]
+    lt, rt = [1, 3, 3, 6, 9], [0, 1, 3, 7]  # right keys below / equal to the first left key, exact ties, gaps
     if variant == "on":
         L = pd.DataFrame({"t": lt, "v": v})
         R = pd.DataFrame({"t": rt, "w": w})
